@@ -114,7 +114,13 @@ def st_case(draw):
     dec = draw(st.sampled_from([False, False, True]))
     tzs = st.sampled_from(QUARTER_TZ) if dec else G.st_tz()
     forms = G.ALL_FORMS if dec else G.INT_FORMS
-    first = draw(G.st_point_kw(cm, forms=forms, dyadic=True, tz=draw(tzs)))
+    if draw(st.integers(0, 3)) == 0:
+        # near midnight on a month / year / leap-day edge, in an offset that
+        # puts the UTC date on the other side of it
+        first = draw(G.st_edge_point_kw(cm, forms=forms, dyadic=True,
+                                        quarter_tz=dec))
+    else:
+        first = draw(G.st_point_kw(cm, forms=forms, dyadic=True, tz=draw(tzs)))
     pts = [first]
     for _ in range(n - 1):
         how = draw(st.sampled_from(["indep", "near", "near", "near"]))
